@@ -2,11 +2,11 @@ SPECIFICATION Spec
 CONSTANTS
   NMem = 4
   KThr = 3
-  Byz = {3, 4}
-  MaxByz = 2
+  Byz = {4}
+  MaxByz = 3
   MaxDup = 1
-  MaxLen = 12
-  Focus = "shares"
+  MaxLen = 6
+  Focus = "keys"
   AsCoded = FALSE
 INVARIANTS TypeOK OnlyValidShares ThresholdImpliesValidGroupSig OneFaultTolerated BeaconFollowsBlock KeyTableGenuine
 CHECK_DEADLOCK FALSE
